@@ -294,6 +294,25 @@ static InstResult run_float_values(const std::vector<CrashInfo> &cr) {
 	return E.finish();
 }
 
+// escape_fmt(buffer, size): every byte string of length <= 4 over a class representative of each branch (letter, digit,
+// punctuation, backslash, quotes, newline, tab, NUL, control, high-bit) in an exact-size buffer: reads exactly `size`
+// bytes, emits printable ASCII only.
+struct TextSink { std::string out; void append(char c) { out.push_back(c); } void append(const char *s) { out += s; } };
+static InstResult run_escape(const std::vector<CrashInfo> &cr, size_t L) {
+	Enumerator E("escape_fmt", "C20", cr);
+	GuardBuf g;
+	for_all_strings(std::string("a7-\\\"'\n\t\0\x01\xff ", 12), L, [&](const std::string &f) {
+		E.eval("escape_fmt " + printable(f), "escape_fmt", [&] {
+			const char *raw = g.place(f.data(), f.size());
+			TextSink sink;
+			frg::format(frg::escape_fmt(raw, f.size()), sink);
+			for(unsigned char c : sink.out) if(c < 0x20 || c > 0x7e) throw Violation{"C20", "escape_fmt:unescaped", "escape_fmt emitted a non-printable byte"};
+			if(sink.out.size() < f.size()) throw Violation{"C20", "escape_fmt:short", "escape_fmt emitted fewer characters than it was given bytes"};
+		});
+	});
+	return E.finish();
+}
+
 static std::vector<Instance> instances(const std::string &tier) {
 	bool th = tier == "thorough";
 	std::vector<Instance> v;
@@ -307,6 +326,7 @@ static std::vector<Instance> instances(const std::string &tier) {
 	for(int s = 0; s < NF; s++) add("fmt-parse-" + std::to_string(s), [=](const std::vector<CrashInfo> &cr) { return run_fmt(cr, th ? 8 : 6, s, NF); });
 	for(int s = 0; s < NC; s++) add("cmdline-parse-" + std::to_string(s), [=](const std::vector<CrashInfo> &cr) { return run_cmdline(cr, th ? 8 : 7, s, NC); });
 	add("printf-float-values", [=](const std::vector<CrashInfo> &cr) { return run_float_values(cr); });
+	add("escape_fmt", [=](const std::vector<CrashInfo> &cr) { return run_escape(cr, th ? 5 : 4); });
 	add("to_number-parse", [=](const std::vector<CrashInfo> &cr) { return run_tonumber(cr, th ? 8 : 6); });
 	return v;
 }
